@@ -72,6 +72,7 @@ def run(run):
     _r4_closed_forms(run, ev)
     _r5_reducers(run, ev)
     n = memo.check_module(run, "C13.R6", PYR)
+    n += memo.check_keyed_attribute_caches(run, "C13.R6", PYR)
     if not memo.selfcheck():
         run.undecided("C13.R6", None, None, "memo rule self-check failed", kind="selfcheck", construct="<memo selfcheck>")
     if not [o for o in run.obs if o.rule == "C13.R6"]:
@@ -350,6 +351,10 @@ def _r5_reducers(run, ev):
         if verdict[0] == "equal" and dv == default and unconditional:
             run.holds("C13.R5", f, fx["set_data"][0].node, "%s: per-tile value follows its recurrence on all %d cases (default %s)" % (name, verdict[1], show(default)))
             specs[name] = want
+        elif dv != default and dv is not None and dv[0] in ("nt", "tuple", "list", "dict", "call", "new"):
+            # one reduction carrying several numbers at once (a record of counts): the per-counter recurrences are not projected out
+            run.undecided("C13.R5", f, fx["node"], "%s reduces with a compound value (default %s): a reduction carrying several counts at once is not followed component "
+                          "by component" % (name, show(dv)[:60]), kind="reducer-compound")
         elif dv != default:
             run.violated("C13.R5", f, fx["node"], "%s reduces with default value %s, expected %s (value of a missing child)" % (name, show(dv), show(default)), kind="reducer-default")
         elif verdict[0] == "differ":
